@@ -679,8 +679,14 @@ remove_job_from_pattern		(vbi3_raw_decoder *	rd,
 		int8_t *src;
 		int8_t *end;
 
+		int8_t last;
+
 		dst = pattern;
 		end = pattern + _VBI3_RAW_DECODER_MAX_WAYS;
+
+		/* The last way holds the "line is not blank" marker of
+		   decode_pattern(), it must stay in place. */
+		last = end[-1];
 
 		/* Remove jobs with job_num, fill up pattern with 0.
 		   Jobs above job_num move down in rd->jobs. */
@@ -689,12 +695,16 @@ remove_job_from_pattern		(vbi3_raw_decoder *	rd,
 
 			if (num > job_num)
 				*dst++ = num - 1;
-			else if (num != job_num)
+			else if (num != job_num
+				 && (num >= 0 || src < end - 1))
 				*dst++ = num;
 		}
 
 		while (dst < end)
 			*dst++ = 0;
+
+		if (last < 0)
+			end[-1] = last;
 
 		pattern = end;
 	}
@@ -726,6 +736,10 @@ vbi3_raw_decoder_remove_services
 
 	while (job_num < rd->n_jobs) {
 		if (job->id & services) {
+			/* Merged services (e. g. caption field 1 and 2)
+			   share a job and can only be removed together. */
+			services |= job->id;
+
 			if (rd->pattern)
                                 remove_job_from_pattern (rd, job_num);
 
@@ -737,6 +751,7 @@ vbi3_raw_decoder_remove_services
 			CLEAR (rd->jobs[rd->n_jobs]);
 		} else {
 			++job_num;
+			++job;
 		}
 	}
 
